@@ -27,7 +27,12 @@ Rows == {T("opt", "", <<Prim("u32")>>), T("seq", "Vec", <<Prim("String")>>), T("
          T("map", "HashMapString", <<Prim("bool")>>), T("map", "HashMapStr", <<Prim("i64")>>),
          T("map", "BTreeMapString", <<Prim("f64")>>), T("map", "BTreeMapStr", <<Prim("char")>>),
          T("wrap", "Box", <<Prim("u16")>>), T("wrap", "Rc", <<Prim("String")>>), T("wrap", "Arc", <<Prim("&str")>>),
-         T("wrap", "Cell", <<Prim("isize")>>), T("wrap", "RefCell", <<T("seq", "Vec", <<Prim("f32")>>)>>)}
+         T("wrap", "Cell", <<Prim("isize")>>), T("wrap", "RefCell", <<T("seq", "Vec", <<Prim("f32")>>)>>),
+         \* an optional whose payload maps to `object', `float' or `string' through a special type (also behind a
+         \* transparent wrapper, inside a sequence and as a map value)
+         T("opt", "", <<Special("Value")>>), T("opt", "", <<T("wrap", "Arc", <<Special("Value")>>)>>),
+         T("seq", "Vec", <<T("opt", "", <<Special("Value")>>)>>), T("map", "HashMapString", <<T("opt", "", <<Special("Value")>>)>>),
+         T("opt", "", <<Special("Duration")>>), T("opt", "", <<Special("PathBuf")>>), T("opt", "", <<Unit>>)}
 L1 == Rows \cup RandomSubset(N1, Over(R0 \cup Refs))
 L2 == RandomSubset(N2, Over(L1))
 L3 == RandomSubset(N2, Over(L2))
